@@ -109,8 +109,11 @@ Plug(ctx, hoist, probe) ==
                     ELSE WrapAll(ctx, 1, probe.setup \o probe.stmts)) )
 
 \* all contexts of depth <= d over the wrapper set W
-RECURSIVE Ctxs(_, _)
-Ctxs(W, d) == IF d = 0 THEN {<<>>} ELSE Ctxs(W, d - 1) \cup {Append(c, w) : c \in Ctxs(W, d - 1), w \in W}
+\* a function or method wrapper is only used as the OUTERMOST wrapper: it declares a top-level function / class (a `def f` nested
+\* in another block is not callable in today's checker, and nested definitions are not part of the documented core)
+RECURSIVE AllCtxs(_, _)
+AllCtxs(W, d) == IF d = 0 THEN {<<>>} ELSE AllCtxs(W, d - 1) \cup {Append(c, w) : c \in AllCtxs(W, d - 1), w \in W}
+Ctxs(W, d) == {c \in AllCtxs(W, d) : \A j \in 2..Len(c) : c[j] \notin {"fun", "method"}}
 
 CanHoist(ctx, probe) == Len(ctx) > 0 /\ Len(probe.setup) > 0 /\ ~(probe.writes /\ FunBoundary(ctx))
 =====================================================================================
